@@ -2218,6 +2218,7 @@ def replay_namespace(w):
     import copy as _copy
     for src, data in [("{% set d.a = 1 %}", {"d": {}}), ("{% set x = 1 %}{% set x.a = 1 %}", {}), ("{% set u.a = 1 %}", {}),
                       ("{% set ns = namespace() %}{% set ns.a, d.b = 1, 2 %}", {"d": {}}),
+                      ("{% set ns = namespace() %}{% set ns, ns.x = d, 1 %}", {"d": {"a": 1}}), ("{% set ns = namespace() %}{% for i in [1] %}{% set ns, ns.x = d, 1 %}{% endfor %}", {"d": {"a": 1}}),
                       ("{% set d.x %}42{% endset %}", {"d": {"k": 1}}), ("{% set d.x | upper %}ab{% endset %}", {"d": {"k": 1}}),
                       ("{% for r in rows %}{% set r.x %}{{ loop.index }}{% endset %}{% endfor %}", {"rows": [{"n": 1}, {"n": 2}]}),
                       ("{% for r in rows %}{% set r.x = 1 %}{% endfor %}", {"rows": [{"n": 1}]}),
@@ -2226,8 +2227,8 @@ def replay_namespace(w):
         try:
             env.from_string(src).render(data)
             problems.append(f"{src!r}: attribute assignment on a non-namespace object did not raise")
-        except jinja2.exceptions.TemplateRuntimeError:
-            pass
+        except (jinja2.exceptions.TemplateRuntimeError, jinja2.exceptions.TemplateSyntaxError):
+            pass  # rejected at run time (not a namespace) or already at compile time (name and its attribute in one target)
         except Exception as ex:
             problems.append(f"{src!r}: {type(ex).__name__} instead of TemplateRuntimeError")
         if data != before:
@@ -2256,7 +2257,20 @@ def _t_tuple(items):
     return build
 
 
+def _t_rebinding(order):
+    """(ns, ns.x) / (ns.x, ns): a plain name and an attribute of THAT name in one target"""
+    def build(st, path):
+        from pyvc import emit
+        shared = sym(f"{path}.shared_name", "str")
+        nm = emit.make_node(st, N.Name, f"{path}.items[{order.index('name')}]", fields={"ctx": "store", "name": shared})
+        ns = emit.make_node(st, N.NSRef, f"{path}.items[{order.index('nsref')}]", fields={"name": shared})
+        items = [nm, ns] if order == ("name", "nsref") else [ns, nm]
+        return emit.make_node(st, N.Tuple, path, fields={"items": st.alloc(HList(items=items), initial=True), "ctx": "store"})
+    return build
+
+
 TARGET_SHAPES = {
+    "tuple(name=base,nsref)": _t_rebinding(("name", "nsref")), "tuple(nsref,name=base)": _t_rebinding(("nsref", "name")),
     "name": _t_name, "nsref": _t_nsref, "tuple(name)": _t_tuple([_t_name]), "tuple(nsref)": _t_tuple([_t_nsref]),
     "tuple(nsref,name)": _t_tuple([_t_nsref, _t_name]), "tuple(nsref,nsref)": _t_tuple([_t_nsref, _t_nsref]),
     "tuple(name,tuple(nsref))": _t_tuple([_t_name, _t_tuple([_t_nsref])]),
@@ -2344,15 +2358,46 @@ def guarded_store_pred(sc, tree, ph, txt):
                 if t is not None:
                     yield n, t
 
+    def ordered_targets(t):
+        """store targets of an assignment in Python's evaluation order (left to right, depth first)"""
+        if isinstance(t, (ast.Tuple, ast.List)):
+            for e in t.elts:
+                yield from ordered_targets(e)
+        elif isinstance(t, ast.Starred):
+            yield from ordered_targets(t.value)
+        else:
+            yield t
+
+    rebound = []  # names (re)bound by plain stores after their guard was emitted
     for stmt in tree.body:
         g = is_namespace_guard(stmt, ph)
         if g is not None:
             guarded.append(name_of.get(str(g)))
             continue
+        seq = []
+        if isinstance(stmt, ast.Assign):
+            for t in stmt.targets:
+                seq += list(ordered_targets(t))
+        elif isinstance(stmt, (ast.AugAssign, ast.AnnAssign, ast.For, ast.AsyncFor)):
+            seq += list(ordered_targets(stmt.target))
+        handled = set()
+        for t in seq:
+            if isinstance(t, ast.Name) and ident_of(ph, t) is not None:
+                rebound.append(name_of.get(str(ident_of(ph, t))))
+            elif isinstance(t, ast.Subscript) and ident_of(ph, t.value) is not None:
+                handled.add(id(t))
+                nm = name_of.get(str(ident_of(ph, t.value)))
+                if nm is None or not any(x is not None and same(x, nm) for x in guarded):
+                    fails.append(f"item store `{ast.unparse(t)[:60]}` on a template variable without a preceding isinstance(..., Namespace) guard for that variable")
+                elif any(x is not None and same(x, nm) for x in rebound):
+                    fails.append(f"item store `{ast.unparse(t)[:60]}`: the variable is REBOUND between its Namespace guard and the store (targets are assigned left to "
+                                 "right: the guard has checked the old value, the store goes to whatever the name was just bound to)")
         for n, t in stores_in(stmt):
+            if id(n) in handled:
+                continue
             nm = name_of.get(str(t))
-            if nm is None or not any(x is not None and same(x, nm) for x in guarded):
-                fails.append(f"item store `{ast.unparse(n)[:60]}` on a template variable without a preceding isinstance(..., Namespace) guard for that variable")
+            if nm is None or not any(x is not None and same(x, nm) for x in guarded) or any(x is not None and same(x, nm) for x in rebound):
+                fails.append(f"item store `{ast.unparse(n)[:60]}` on a template variable without a valid isinstance(..., Namespace) guard for that variable")
     return fails
 
 
@@ -2422,7 +2467,7 @@ def nsref_guard_task(n_refs):
 
         def find_all(I_, st, args, kwargs, node):
             if args[1] is not N.NSRef:
-                raise Unsupported("find_all of another class", node)
+                return [(st, ())]
             refs = tuple(emit.make_node(st, N.NSRef, f"nsref{i}") for i in range(n_refs))
             return [(st, refs)]
 
